@@ -84,6 +84,9 @@ type frame struct {
 	freeVars    []Val
 	rangeOf     map[*ssa.Range]Val
 	locals      map[*ssa.Alloc]bool
+	sliceCls    []*sliceClassInfo
+	reachMemo   map[[2]int]bool
+	curIns      ssa.Instruction
 	own         bool // inlined anonymous closure of the function under verification: its obligations count
 }
 
@@ -177,6 +180,11 @@ func (v *FnVC) Build() (err error) {
 	// global axioms
 	for _, ax := range v.w.Contracts.Axioms {
 		env := &specEnv{v: v, fr: fr, st: st, old: st}
+		if ax.Pkg != "" {
+			if p := env.pkgOfFn(); p == nil || shortPkg(p.Path()) != ax.Pkg {
+				continue
+			}
+		}
 		t := env.evalBool(ax.Expr)
 		v.sc.Assert(t)
 	}
@@ -204,8 +212,12 @@ func (v *FnVC) Build() (err error) {
 	}
 	v.runFrame(fr, st, tTrue)
 	// vacuity guards: every return of a contracted function must be reachable under the collected assumptions
-	if v.con != nil && (len(v.con.Ensures) > 0 || len(v.con.Iterations) > 0) {
+	if v.con != nil && (len(v.con.Ensures) > 0 || len(v.con.Iterations) > 0 || len(v.con.Variants) > 0) {
+		live := staticallyLiveBlocks(v.fn)
 		for i, r := range fr.rets {
+			if !live[r.blk] {
+				continue // a return behind a branch on constants (`var err error; if err != nil {...}`) is dead code, not vacuity
+			}
 			v.addObl("CANARY", fmt.Sprintf("false-at-return%d", i), token.NoPos, r.reach, tTrue, nil, "notunsat")
 		}
 	}
@@ -612,8 +624,11 @@ func (v *FnVC) loadLoc(st *State, l Loc, guard Term) Val {
 	val, _ := unflatten(t, ts)
 	v.assumeTyped(val, t, st, guard)
 	if l.Kind == locElem && v.w.Contracts.ElemsNonNil[typeKey(types.Unalias(t))] {
-		if sc, ok := val.(Sc); ok {
+		switch sc := val.(type) {
+		case Sc:
 			v.sc.Assert(Implies(guard, Not(Eq(sc.T, tZero))))
+		case IfaceV:
+			v.sc.Assert(Implies(guard, Not(Eq(sc.Tag, tZero))))
 		}
 	}
 	return val
@@ -987,6 +1002,15 @@ func invokeKey(c *ssa.CallCommon) string {
 }
 
 func (v *FnVC) assignFams(con *Contract, ms *ModSet) {
+	if con.Fn != nil {
+		if fams := v.w.stubAssigns(con.Fn); fams != nil {
+			for f, s := range fams {
+				ms.add(f, s)
+				ms.markNonFresh(f)
+			}
+			return
+		}
+	}
 	for _, a := range con.Assigns {
 		// a is a family prefix like F#dsl.ErrorSink#Errors ; sorts resolved from ModInfo of the function
 		full := v.w.mods.Of(con.Fn)
@@ -1129,6 +1153,7 @@ func (v *FnVC) runFrame(fr *frame, entry *State, entryReach Term) {
 			if _, ok := ins.(*ssa.Phi); ok {
 				continue
 			}
+			fr.curIns = ins
 			v.exec(fr, st, ins)
 		}
 		fr.out[b.Index] = st
@@ -1220,7 +1245,7 @@ func (v *FnVC) enterLoop(fr *frame, li *loopInfo, b *ssa.BasicBlock, st *State, 
 		}
 	}
 	for _, c := range invs {
-		env := &specEnv{v: v, fr: fr, st: preState, old: fr.entry, over: ov}
+		env := &specEnv{v: v, fr: fr, st: preState, old: fr.entry, over: ov, loop: li}
 		t := env.evalBool(c.Expr)
 		o := v.addObl("INV-init", fmt.Sprintf("loop%d:%s", li.ordinal, clauseName(c)), b.Instrs[0].Pos(), reach, t, c.Props, "")
 		o.Clause = c
@@ -1307,7 +1332,7 @@ func (v *FnVC) enterLoop(fr *frame, li *loopInfo, b *ssa.BasicBlock, st *State, 
 	li.headState = st.clone()
 	// 4. assume invariants (user + auto)
 	for _, c := range invs {
-		env := &specEnv{v: v, fr: fr, st: st, old: fr.entry, over: ov2}
+		env := &specEnv{v: v, fr: fr, st: st, old: fr.entry, over: ov2, loop: li}
 		t := env.evalBool(c.Expr)
 		v.sc.Assert(Implies(reach, t))
 	}
@@ -1537,6 +1562,14 @@ func (v *FnVC) backEdge(fr *frame, li *loopInfo, from *ssa.BasicBlock, st *State
 			o.Clause = c
 		}
 	}
+	if v.con != nil && fr.top && li.headState != nil {
+		if c := v.con.Variants[li.ordinal]; c != nil {
+			eOld := (&specEnv{v: v, fr: fr, st: li.headState, old: li.headState, loop: li}).eval(c.Expr).V.(Sc).T
+			eNew := (&specEnv{v: v, fr: fr, st: st, old: li.headState, loop: li}).eval(c.Expr).V.(Sc).T
+			o := v.addObl("TERM", fmt.Sprintf("loop%d:variant %s", li.ordinal, normText(c.Text)), from.Instrs[len(from.Instrs)-1].Pos(), ec, And(Le(tZero, eOld), Lt(eNew, eOld)), c.Props, "")
+			o.Clause = c
+		}
+	}
 	invs := v.loopInvariants(fr, li)
 	if len(invs) == 0 {
 		return
@@ -1570,7 +1603,7 @@ func (v *FnVC) backEdge(fr *frame, li *loopInfo, from *ssa.BasicBlock, st *State
 		fr.vals[phi] = nv
 	}
 	for _, c := range invs {
-		env := &specEnv{v: v, fr: fr, st: st, old: fr.entry, over: ov}
+		env := &specEnv{v: v, fr: fr, st: st, old: fr.entry, over: ov, loop: li}
 		t := env.evalBool(c.Expr)
 		o := v.addObl("INV-pres", fmt.Sprintf("loop%d:%s", li.ordinal, clauseName(c)), from.Instrs[len(from.Instrs)-1].Pos(), ec, t, c.Props, "")
 		o.Clause = c
@@ -1765,4 +1798,39 @@ func (v *FnVC) callMayEmit(ci ssa.CallInstruction) (map[string]bool, bool) {
 		top = true
 	}
 	return out, top
+}
+
+// staticallyLiveBlocks: blocks reachable from the entry when branches that compare two nil constants are folded.
+func staticallyLiveBlocks(fn *ssa.Function) map[int]bool {
+	live := map[int]bool{}
+	var walk func(b *ssa.BasicBlock)
+	walk = func(b *ssa.BasicBlock) {
+		if live[b.Index] {
+			return
+		}
+		live[b.Index] = true
+		if len(b.Instrs) > 0 {
+			if br, ok := b.Instrs[len(b.Instrs)-1].(*ssa.If); ok {
+				if bo, ok := br.Cond.(*ssa.BinOp); ok && (bo.Op == token.EQL || bo.Op == token.NEQ) {
+					x, xok := bo.X.(*ssa.Const)
+					y, yok := bo.Y.(*ssa.Const)
+					if xok && yok && x.IsNil() && y.IsNil() {
+						if bo.Op == token.EQL {
+							walk(b.Succs[0])
+						} else {
+							walk(b.Succs[1])
+						}
+						return
+					}
+				}
+			}
+		}
+		for _, s := range b.Succs {
+			walk(s)
+		}
+	}
+	if len(fn.Blocks) > 0 {
+		walk(fn.Blocks[0])
+	}
+	return live
 }
